@@ -27,6 +27,10 @@ def check(repo, res, tier):
                        'when total >= 1, == 1 when total < 1')
     res.rule('C06.W3', '_calc_task_delay returns delay.generate_delay(self.duration) or self.duration')
     res.rule('C06.W4', 'ingest tasks: flops = task_data = 0, no delay model, duration = observation.duration')
+    from . import c14
+    from .common import borrow
+    res.rule('C06.W5', 'adopted C14.G2: the compute and data demand a task carries are those of its own workflow node')
+    borrow(repo, res, tier, c14, {'C14.G2'}, 'C06.W5')
     res.assumptions += ['demands and speeds are non-negative, so int(a/b) == floor(a/b)',
                         'SimPy: a process resumes exactly timeout units after yielding env.timeout(t)']
     # ---- W1 ----------------------------------------------------------------
